@@ -367,6 +367,10 @@ class _GenerateRenderMethod:
             None,
         )
         self.printer.writeline("def _mako_generate_namespaces(context):")
+        if any("import" in n.attributes for n in namespaces.values()):
+            # defs written inside <%namespace> are created before any
+            # import is established; their free names come from the context
+            self.printer.writeline("_import_ns = {}")
 
         for node in namespaces.values():
             if "import" in node.attributes:
